@@ -11,6 +11,7 @@ TECH = "Coq proof over a dlog model + extracted-model/implementation corresponde
 P = {
  "C01": "Theorems for all keys, messages of any length, schemes and both group assignments: signing succeeds and equals H(amsg)*sk (deterministic), the honest signature verifies, the zero key is refused, the degenerate-hash branch is rejected. Tied to the code by running the extracted model and the real library on the same generated cases, plus an un-hooked search (reference verifier on the other backend, every encoding).",
  "C02": "Exact characterisation of Signature::verify (guards + CoreVerify equation); uniqueness of the accepted group element; every other point / key rejected absolutely; other message, length, bit or scheme label accepted only at an explicit hash-oracle collision between two provably different (input, tag) pairs; valid related tuples stay valid.",
+ "C03": "PARTIAL. Proved: the tags, KeyGen salt and info are the draft's strings; KeyGen = HKDF-Extract(salt, IKM||0)/Expand(I2OSP(48,2),48)/OS2IP mod r; Sign/Verify per scheme are CoreSign/CoreVerify on msg resp. PK||msg under the scheme tag; PopProve/PopVerify over the public-key bytes under the POP tag; Aggregate = sum; CoreAggregateVerify = product of pairings. Decided by the runs, not by a theorem: byte-exactness of points (SSWU, isogeny, cofactor clearing, compression live in the curve crates): the hooked correspondence run recomputes KeyGen from HMAC-SHA-256 and compares every key/signature byte for byte, and the un-hooked conformance search compares library output with a reference on the pure-Rust backend and replays RFC 9380 vectors.",
  "C04": "One guard theorem per entry point (verify, aggregate with the identity at any position, multi, PoP, PoK, signcryption validity/decrypt/share, time-lock open/seal, ElGamal seal/verify/verify-and-decrypt, signing with the zero scalar, byte import of zero) plus the exhaustively proved zero test; the attack lemma shows the pairing equation alone would accept.",
  "C05": "All 15 tag/salt constants pairwise distinct (by computation on the model's constants) and equal to the IETF strings; cross-scheme and signature-vs-PoP acceptance proved to require a hash collision between different (input, tag) pairs; variant-driven tag selection.",
  "C06": "For every list length: accumulation = plain sum with exact error kinds for <2 / mixed; exact acceptance condition of AggregateSignature::verify incl. Basic's distinct-message rule; completeness; permutation invariance; dropped/added/altered/swapped pairs reduced to explicit relations.",
@@ -25,6 +26,7 @@ P = {
  "C16": "Generic theorem: every proper prefix of a valid encoding is rejected, for every layout; exact-length types reject every other length; zero scalars are not importable and nothing imported is zero; combining or verifying share containers with an invalid payload is an error. That returned points are subgroup points holds by construction of the dlog model and is tied to the code by feeding off-subgroup / off-curve / bad-flag encodings at every point position of every type to model and implementation.",
  "C17": "Totality theorems (neither panic nor non-termination, debug and release semantics) for every consuming entry point that contains a panicking construct: zero test (exhaustive over the 256 OR-values), length-prefix parsing and slicing, share combination (Lagrange denominator), Signature::from_shares on the empty list, aggregate verification, proof-of-knowledge and timestamp verification for every u64, all signcryption decrypt paths with payloads of any size, time-lock decryption, the curve-tagged key wrapper on empty slices; under the oracle side conditions the code itself asserts. Panics inside dependencies: search harness only.",
  "C18": "Pinning theorems for every salt, tag, transcript label and order, framing rule, hash input layout and serde layout of the model, plus seal = documented construction for signcryption and time lock; tied to the code by the byte-exact correspondence run over all four constructions and all layouts, to the documented constructions by an independent reference implementation exchanging tuples in both directions, and to the pinned release by a golden corpus.",
+ "C20": "PARTIAL. Proved (invariant by induction over arbitrary call histories of any length): every randomized entry point consumes at least one fresh entropy index unless it is refused before anything randomized happens; the draw counter never decreases; two different calls in a history consume disjoint non-empty index ranges; single-draw entry points are functions of exactly the seed at their index; equal ephemeral points imply equal derived scalars (seed-derivation collision). Outside the model: that from_entropy() yields distinct unpredictable seeds across calls, threads and processes (OS behaviour) - tested by the search harness (N identical calls, 8 threads, two processes).",
  "C14": "Encryption/decryption correctness, additive homomorphism for any list, decryption keys from shares, exact proof verification condition, completeness, verify-and-decrypt under own key only, transcript binds every public component injectively, modified tuples need a Fiat-Shamir collision.",
 }
 def main():
